@@ -57,3 +57,22 @@ macro_rules! harness_tls {
         }
     };
 }
+
+
+/// Seam configuration: allocator stubs plus the scheduler hook of the atomics shim.
+#[macro_export]
+macro_rules! harness_seam {
+    ($name:ident, $unwind:literal, $body:expr) => {
+        #[kani::proof]
+        #[kani::unwind($unwind)]
+        #[kani::stub(alloc::alloc::alloc, crate::shim::shim_alloc)]
+        #[kani::stub(alloc::alloc::dealloc, crate::shim::shim_dealloc)]
+        #[kani::stub(alloc::alloc::realloc, crate::shim::shim_realloc)]
+        #[kani::stub(alloc::alloc::dealloc_nonnull, crate::shim::shim_dealloc_nonnull)]
+        #[kani::stub(alloc::alloc::realloc_nonnull, crate::shim::shim_realloc_nonnull)]
+        #[kani::stub(loom::sched::hook, crate::hs::ls_seam_hook)]
+        fn $name() {
+            $body
+        }
+    };
+}
